@@ -37,7 +37,17 @@ func (u *Upper) UnmarshalFlag(v string) error {
 	return nil
 }
 
-func (u Upper) MarshalFlag() (string, error) { return "U:" + string(u), nil }
+// MarshalFlag lower-cases, so that marshalling is visible in the output and UnmarshalFlag
+// still reads it back to the same value.
+func (u Upper) MarshalFlag() (string, error) {
+	b := []byte(u)
+	for i, c := range b {
+		if c >= 'A' && c <= 'Z' {
+			b[i] = c + 0x20
+		}
+	}
+	return string(b), nil
+}
 
 // Vstr: ValueValidator (custom 1).
 type Vstr string
